@@ -20,6 +20,9 @@ use std::sync::Arc;
 #[path = "c02sched.rs"]
 mod sched;
 
+/// how long all clients of one sampled case may take (normally milliseconds)
+const CASE_DEADLINE: std::time::Duration = std::time::Duration::from_secs(45);
+
 #[derive(Clone, Debug)]
 struct Event {
     stamp: u64,
@@ -466,8 +469,28 @@ async fn run_case(out: &mut Out, case: Case, fixed: bool) {
         handles.push(tokio::spawn(client(st.clone(), clock.clone(), p)));
     }
     let mut events: Vec<Event> = Vec::new();
-    for h in handles {
-        events.extend(h.await.expect("client task"));
+    // a request that is never answered (a lost wake-up, a reply written into another request's slot) must
+    // end the case, not the run: the clients get `CASE_DEADLINE` in all
+    let all = async {
+        let mut evs: Vec<Event> = Vec::new();
+        for h in handles.iter_mut() {
+            evs.extend(h.await.expect("client task"));
+        }
+        evs
+    };
+    match tokio::time::timeout(CASE_DEADLINE, all).await {
+        Ok(evs) => events.extend(evs),
+        Err(_) => {
+            for h in &handles {
+                h.abort();
+            }
+            out.violation(
+                &format!("C02:request-never-answered:{}:shards={}", case.class, case.n),
+                &format!("{} shards, {} clients: after {} s at least one request has still not been answered — a reply was lost (the clients' programs are the replay; operations are single-key string commands through the generic / fast / pooled / batch / script paths)", case.n, case.programs.len(), CASE_DEADLINE.as_secs()),
+                json!({"shards": case.n, "class": case.class, "programs": case.programs.iter().map(|p| p.iter().map(|(o, y)| format!("{} (yields {})", o.line(), y)).collect::<Vec<_>>()).collect::<Vec<_>>()}),
+            );
+            return;
+        }
     }
     events.sort_by_key(|e| e.stamp);
     judge(out, events, case.class, case.n, case.programs.len(), fixed, None);
@@ -971,6 +994,12 @@ async fn run_timed_case(out: &mut Out, case: TimedCase) {
         }
     }
     events.sort_by_key(|e| e.stamp);
+    judge_timed(out, events, case.n, &case.label, clients);
+}
+
+/// hand one stamped TIMED history (every invocation carries the virtual time it was made at) to the
+/// verified timed checker and to the independent one
+fn judge_timed(out: &mut Out, events: Vec<TEvent>, n: usize, label: &str, clients: usize) {
     out.op("NEW".into(), "ok".into());
     let mut text = Vec::new();
     for e in &events {
@@ -1002,18 +1031,18 @@ async fn run_timed_case(out: &mut Out, case: TimedCase) {
     let lin = bad.is_empty();
     out.op("CHECK".into(), if lin { "lin".into() } else { "not-lin".into() });
     out.count("class:timed");
-    out.count(&format!("timed:{}", case.label));
-    out.count(&format!("shards:{}", case.n));
+    out.count(&format!("timed:{}", label));
+    out.count(&format!("shards:{}", n));
     out.count(if lin { "verdict:lin" } else { "verdict:not-lin" });
     if !lin {
         out.violation(
-            &format!("C02:not-linearizable:timed:shards={}", case.n),
-            &format!("{} shards, {}: with deadlines and the clock advanced between phases, the history of key(s) {} admits no linearization (an operation invoked at virtual time t sees a key iff t < its deadline)", case.n, case.label, bad.join(",")),
-            json!({"shards": case.n, "class": "timed", "pattern": case.label, "history": text}),
+            &format!("C02:not-linearizable:timed:shards={}", n),
+            &format!("{} shards, {}: with deadlines and the clock advanced between phases, the history of key(s) {} admits no linearization (an operation invoked at virtual time t sees a key iff t < its deadline)", n, label, bad.join(",")),
+            json!({"shards": n, "class": "timed", "pattern": label, "history": text}),
         );
     }
     out.case(&text.join(";"), true);
-    out.sample(json!({"shards": case.n, "class": "timed", "clients": clients, "history": text.iter().take(16).collect::<Vec<_>>()}));
+    out.sample(json!({"shards": n, "class": "timed", "clients": clients, "history": text.iter().take(16).collect::<Vec<_>>()}));
 }
 
 fn out_count_path(_op: &Op) {}
@@ -1022,19 +1051,31 @@ pub fn run(a: &Args) {
     let mut out = Out::new(&a.out);
     let mut rng = Rng::new(a.seed);
     let rt = tokio::runtime::Builder::new_multi_thread().worker_threads(4).enable_all().build().unwrap();
+    // which routing does the tree have?  (same observation as C03)
     let fixed = rt.block_on(async {
-        // which routing does the tree have?  (same observation as C03)
-        let fixed = {
-            let st = new_state(4);
-            let mut all_hit = true;
-            for k in pool() {
-                apply(&st, &Op::kv("FSET", &k, b"x")).await;
-                all_hit &= apply(&st, &Op::new("EXISTS", vec![k.clone()], vec![])).await == "i:1";
-            }
-            all_hit
-        };
-        out.extra.insert("hash_key_delegates_to_hash_key_bytes".into(), json!(fixed));
+        let st = new_state(4);
+        let mut all_hit = true;
+        for k in pool() {
+            apply(&st, &Op::kv("FSET", &k, b"x")).await;
+            all_hit &= apply(&st, &Op::new("EXISTS", vec![k.clone()], vec![])).await == "i:1";
+        }
         crate::c03::init_get_script_sha().await;
+        all_hit
+    });
+    out.extra.insert("hash_key_delegates_to_hash_key_bytes".into(), json!(fixed));
+    // enumerated schedules FIRST (a current-thread runtime, request futures polled by hand, every wait bounded):
+    // whatever makes a sampled case hang below has been looked for deterministically before
+    sched::run(&mut out, fixed, &mut Rng::new(a.seed ^ 0x5C4ED), a.n > 50_000);
+    sched::run_timed(&mut out, a.n > 50_000);
+    rt.block_on(async {
+        // every case is bounded: a case that does not finish is reported and the run goes on
+        macro_rules! guarded {
+            ($label:expr, $fut:expr) => {
+                if tokio::time::timeout(std::time::Duration::from_secs(120), $fut).await.is_err() {
+                    out.violation(&format!("C02:request-never-answered:{}", $label), &format!("the {} case did not finish within 120 s: at least one request was never answered", $label), json!({"case": $label}));
+                }
+            };
+        }
         run_case(&mut out, corpus(fixed), fixed).await;
         for c in corpus_batch() {
             run_case(&mut out, c, fixed).await;
@@ -1044,32 +1085,29 @@ pub fn run(a: &Args) {
         }
         // time: deadlines and a hand-driven clock
         for c in timed_corpus() {
-            run_timed_case(&mut out, c).await;
+            guarded!("timed", run_timed_case(&mut out, c));
         }
         // multi-call scripts on two keys of one shard: the whole script is one atomic step
-        transfer_case(&mut out, &mut Rng::new(0x5C21), fixed, true).await;
+        guarded!("transfer", transfer_case(&mut out, &mut Rng::new(0x5C21), fixed, true));
         // cancellations: the fixed case first, then a few random ones
-        cancel_case(&mut out, &mut Rng::new(0xC02), fixed, true).await;
+        guarded!("cancel", cancel_case(&mut out, &mut Rng::new(0xC02), fixed, true));
         for i in 0..a.n {
             let mut r = rng.fork();
             let c = random_case(&mut r, fixed);
             run_case(&mut out, c, fixed).await;
             if i % 2000 == 999 {
-                cancel_case(&mut out, &mut r, fixed, false).await;
+                guarded!("cancel", cancel_case(&mut out, &mut r, fixed, false));
             }
             if i % 400 == 7 {
-                transfer_case(&mut out, &mut r, fixed, false).await;
+                guarded!("transfer", transfer_case(&mut out, &mut r, fixed, false));
             }
             if i % 8 == 3 {
                 let c = timed_random(&mut r);
-                run_timed_case(&mut out, c).await;
+                guarded!("timed", run_timed_case(&mut out, c));
             }
         }
-        fixed
     });
     drop(rt);
-    // enumerated schedules: a current-thread runtime, request futures polled by hand
-    sched::run(&mut out, fixed, &mut Rng::new(a.seed ^ 0x5C4ED), a.n > 50_000);
     out.extra.insert("audit".into(), serde_json::from_str(r####"{
  "1 entry paths": "CLOSED: every ShardMessage kind that carries a client request is in the concurrent mix (generic incl. EVAL/EVALSHA, fast, pooled, batch get/set) — see C03 api_coverage; EvictExpired is not a client operation (no history event); session 4: the entry path is a quantifier of the M7-level theorem (linearizable_node_entry_paths: ReqV.via cls now c for every frame class of Shards.dispatch)",
  "2 input alphabet": "CLOSED: keys from C03's structured alphabet; values incl. integers / non-integers for INCR; OPEN: only string commands in histories (other types: C01)",
@@ -1077,11 +1115,11 @@ pub fn run(a: &Args) {
  "4 configuration": "CLOSED: 1,2,4,8,16 shards; response pool capacity 1..256 / prewarm 0..capacity in the cancellation histories; 2..8 clients",
  "5 capacity thresholds": "CLOSED: more pooled acquisitions than the pool holds, during and after a stall; pool of capacity 1",
  "6 fault kinds": "CLOSED: request futures dropped while queued (the only await point of the pooled / oneshot paths is the response wait; send is synchronous); OPEN: shard actor panic / channel closure ('ERR shard unavailable') not injected",
- "7 history shapes": "CLOSED: overlapping ops on one key, sequential corpora per path pair, batched calls, generic fan-outs racing single-key ops, abandoned (pending) operations, timed phases; OPEN: clock advancing WHILE operations are in flight (phases advance it only when all clients are idle)",
+ "7 history shapes": "CLOSED: overlapping ops on one key, sequential corpora per path pair, batched calls, generic fan-outs racing single-key ops, abandoned (pending) operations, timed phases; CLOSED (session 4): the clock advancing WHILE requests are in flight — timed enumerated schedules (c02sched.rs run_timed: three requests invoked at deadline-5 / deadline / deadline+5 in every interleaving, pooled / generic / batched / fast reads and a write, optionally the clock running far past the deadline while everything is still queued: the stamp of a message, not the time the shard gets to it, decides what it sees); OPEN: inverted stamps inside one mailbox (a client that reads the clock, is descheduled, and enqueues after a later-stamped request) cannot be produced through the public entry points on one thread",
  "8 node-global state": "CLOSED: script introduced by EVAL on one shard, EVALSHA elsewhere; multi-call scripts (session 3): XINCR = GET/+1/SET script judged as an increment in the counter histories, two-key transfer/sum scripts racing plain commands (oracle C02:script-not-atomic:transfer); model: Redis.Prog / linearizable_m7_single_store",
  "9 observations": "CLOSED: every reply (verified WGL + Rust checker), direct reply-matches-request oracle in cancellation histories; fan-outs: every ITEM of MGET/MSET is a single-key op inside the call's interval, every key of multi-key DEL / FLUSHALL is a delete without observable reply (pending op); OPEN: DBSIZE / KEYS / SCAN / RANDOMKEY replies under concurrency are NOT judged (no atomic-snapshot claim is made for fan-outs: C02 is per key)",
  "10 finding absorption": "no listed finding for C02",
- "11 harness fragility": "CLOSED: verified checker made just-in-time (no exponential blow-up on non-linearizable histories); CLOSED (session 4): ENUMERATED schedules (c02sched.rs) — on a current-thread runtime the request futures are polled by hand, Invoke / Run / Take / Drop = the steps of Model/Actors; all 90 interleavings of 3 operations x at most one abandoned request (before / after the shard ran) x lazy / eager runs for 8 templates over pooled / fast / generic / batch / script paths, pool capacity 1 and 2, on every run (deterministic); OPEN: the multi-thread histories (more clients, longer programs) remain sampled; the enumeration covers 3 (thorough: 4) operations"
+ "11 harness fragility": "CLOSED: verified checker made just-in-time (no exponential blow-up on non-linearizable histories); CLOSED (session 4): no wait is unbounded — a sampled case whose clients have not all finished after 45 s (a lost wake-up: found by self-test N2, a pooled slot released before the reply is awaited, which made the harness hang) is reported as C02:request-never-answered with the clients' programs and the run goes on; the enumerated schedules run FIRST and bound every poll; CLOSED (session 4): ENUMERATED schedules (c02sched.rs) — on a current-thread runtime the request futures are polled by hand, Invoke / Run / Take / Drop = the steps of Model/Actors; all 90 interleavings of 3 operations x at most one abandoned request (before / after the shard ran) x lazy / eager runs for 8 templates over pooled / fast / generic / batch / script paths, pool capacity 1 and 2, on every run (deterministic); OPEN: the multi-thread histories (more clients, longer programs) remain sampled; the enumeration covers 3 (thorough: 4) operations"
 }"####).unwrap());
     out.finish("case = one concurrent history: 2..8 client tasks (multi-thread tokio runtime, seeded random yields) issue 6..12 single-key string commands per key over 1..3 keys through execute (plain commands and the same commands as Lua scripts via EVAL and via SCRIPT LOAD + EVALSHA) / fast_* / pooled_fast_* / fast_batch_get_pipeline / fast_batch_set_pipeline (batches of 1..4 keys, every item one single-key operation with the call's interval) of a real ShardedActorState with 1, 2, 4, 8 or 16 shards; invocation/response stamped by a global atomic counter. Schedules are SAMPLED (the seed fixes programs and yield patterns, not the interleaving). plus ENUMERATED schedules (class sched: 3-operation templates, every interleaving of invocations and completions x at most one abandoned request x lazy / eager shard runs, request futures polled by hand on a current-thread runtime; 4-operation templates sampled, enumerated in the thorough tier). plus TIMED histories (a key gets a PX / EX deadline; the simulated clock is advanced by hand between phases to just before / at / just past / far past it, with no traffic, traffic to another shard or traffic to the key's own shard in between; then 2..4 clients read the key concurrently through generic GET/EXISTS/MGET, fast, pooled, batched and script (EVAL, EVALSHA) paths, optionally racing a writer; both checkers use a sequential specification with a clock: an operation invoked at virtual time t sees a key iff t < deadline; pattern distribution under timed:*); plus cancellation histories (a slow script keeps one shard busy, pooled requests to it are abandoned by a timeout while queued and stay pending, then 4..8 single-writer clients run > pool-size pooled SET/GET rounds during and after the stall; every reply is also checked directly against its request). distinct by the stamped history text; non-trivial iff two operations on one key overlap in real time and the key is written, or an operation was abandoned");
 }
